@@ -436,6 +436,21 @@ func (e *evaluator) judgeExpireCurrent(key string, now time.Time) verdict {
 	return decide("expiration", e.evalsExpireCurrent(key, cur, now), "acted-wrong:no-rule:expiration")
 }
 
+// newerNoncurrentObjects is the strict reading of the same count: delete
+// markers are not counted. It is used only where a due expiration is held
+// AGAINST an action (expiration-before-transition), so that the monitor faults
+// a transition only if the expiration is due under every reading.
+func (e *evaluator) newerNoncurrentObjects(key string, idx int) int {
+	l := e.m.Keys[key]
+	n := 0
+	for i := idx + 1; i < len(l)-1; i++ {
+		if !l[i].Marker {
+			n++
+		}
+	}
+	return n
+}
+
 func (e *evaluator) newerNoncurrent(key string, idx int) int {
 	// noncurrent versions (objects and delete markers alike - the permissive
 	// reading) that are newer than the one at idx; the last entry is current.
@@ -470,6 +485,10 @@ func (e *evaluator) noncurrentSince(key string, idx int) time.Time {
 }
 
 func (e *evaluator) evalsNoncurrentExpire(key string, idx int, now time.Time) []clauseEval {
+	return e.evalsNoncurrentExpireReading(key, idx, now, false)
+}
+
+func (e *evaluator) evalsNoncurrentExpireReading(key string, idx int, now time.Time, strict bool) []clauseEval {
 	v := e.m.Keys[key][idx]
 	var evals []clauseEval
 	for i := range e.rules {
@@ -482,7 +501,11 @@ func (e *evaluator) evalsNoncurrentExpire(key string, idx int, now time.Time) []
 			fails = append(fails, "rule-disabled")
 		}
 		fails = append(fails, r.filterFails(key, v.Size, v.Tags, v.Marker)...)
-		if r.NcExpKeep != nil && e.newerNoncurrent(key, idx) < int(*r.NcExpKeep) {
+		newer := e.newerNoncurrent(key, idx)
+		if strict {
+			newer = e.newerNoncurrentObjects(key, idx)
+		}
+		if r.NcExpKeep != nil && newer < int(*r.NcExpKeep) {
 			fails = append(fails, "keep-count")
 		}
 		due := dueAfterDays(e.noncurrentSince(key, idx), *r.NcExpDays)
@@ -652,7 +675,7 @@ func (e *evaluator) judgeTransition(key string, id *string, target string, now t
 		}
 	}
 	if v.OK {
-		if ex := decide("noncurrent", e.evalsNoncurrentExpire(key, idx, now), ""); ex.OK {
+		if ex := decide("noncurrent", e.evalsNoncurrentExpireReading(key, idx, now, true), ""); ex.OK {
 			v.OK = false
 			v.PreferenceSuspect = true
 			v.Sig = "acted-wrong:noncurrent-transition-while-expiration-due"
